@@ -59,6 +59,15 @@ Definition record_row_ok (row : string * list (string * string)) : bool :=
   forallb (fun ka => String.eqb (snd ka) "<expr>" || String.eqb (snd ka) "<const>" || String.eqb (fst ka) (snd ka)) pairs &&
   forallb (fun ka => mem (fst ka) record_keys) pairs &&
   forallb (fun k => mem k (map fst pairs)) ["__class_fullname__"; "id"; "params"; "transforms"].
+(* the record of a Compose carries every constructor argument of Compose (the pipeline is rebuilt from it), except
+   the children -- recorded as sub-records -- and the probability, which a replay must not re-draw *)
+Definition compose_ctor_args : list string :=
+  flat_map (fun row => if String.eqb (fst (fst row)) "Compose" then snd row else []) todict_table.
+Definition compose_record_keys : list string :=
+  flat_map (fun row => if String.eqb (fst row) "Compose" then map fst (snd row) else []) record_table.
+Definition compose_record_complete : bool :=
+  forallb (fun a => mem a ["transforms"; "p"] || mem a compose_record_keys) compose_ctor_args &&
+  Nat.leb 4 (List.length compose_ctor_args).
 Definition is_params_row (row : string * list (string * string) * list string) : bool :=
   mem (fst (fst row)) ["Params"; "BboxParams"; "KeypointParams"].
 
